@@ -385,10 +385,30 @@ def walkDirs (S : VSchema) (D : Defects) (st : Stack) (ds : List Dir) : List Evt
   ds.flatMap (fun d =>
     [mk st (.enterDir d)] ++ walkArgs S D st ((S.dir? d.name).map (·.args)) d.args ++ [mk st (.exitDir d)])
 
+/-- `visit_selection`: `ctx.current_type()` is a `MetaType::Object { is_subscription: true, .. }`.
+    The walker goes by the FLAG the registry carries for the type (`S.subFlag`, dumped from the real
+    registry) — it never compares the type with `registry.subscription_type`. -/
 def isSubscriptionRoot (S : VSchema) (t : Option String) : Bool :=
+  match t with
+  | some a => S.subFlag.contains a
+  | none => false
+
+/-- what the flag is meant to say: the type is the one `subscription_type` names -/
+def isSubscriptionRootByName (S : VSchema) (t : Option String) : Bool :=
   match t, S.base.subscription with
   | some a, some b => a == b
   | _, _ => false
+
+/-- the registry's `is_subscription` flags mark exactly the type `subscription_type` names
+    (decidable; every registry the library's macros and the dynamic builder produce is meant to
+    satisfy it — `Schema::build` / `MergedSubscription` / `dynamic::Subscription` set the flag) -/
+def flagWF (S : VSchema) : Bool :=
+  S.subFlag.all (fun n => S.base.subscription == some n)
+  && (match S.base.subscription with | some r => S.subFlag.contains r | none => true)
+
+/-- the registry with the flags a well-formed registry has -/
+def withRootFlag (S : VSchema) : VSchema :=
+  { S with subFlag := match S.base.subscription with | some r => [r] | none => [] }
 
 mutual
 /-- `visit_selection` -/
